@@ -44,6 +44,7 @@ int* __errno_location(void) { return &G.err; }
 int fiber_wait_for_event(int fd, unsigned events);
 void fiber_fd_closed(int fd);
 
+static int KNB[8], KCLOSED[8];   /* per descriptor: the kernel was told O_NONBLOCK / closed it (for the descriptor-creating shims) */
 #define BLOCKING_MODE(f) (((f) & (IO_FLAG_BLOCKING | IO_FLAG_WAITABLE)) == (IO_FLAG_BLOCKING | IO_FLAG_WAITABLE))
 #include "src/fiber_io.c" /* woven real code: fd_info, max_fd, thread_locked, fibershim_* are file-local and reachable here */
 
@@ -82,9 +83,13 @@ static ssize_t k_recvfrom(int fd, void* buf, size_t n, int fl, struct sockaddr* 
 static ssize_t k_sendto(int fd, const void* buf, size_t n, int fl, const struct sockaddr* a, socklen_t al) { if (fd != A.fd || buf != A.buf || n != A.len || fl != A.mflags || (void*)a != A.p1 || (void*)(size_t)al != A.p2) G.bad_args = 1; return k_result(n); }
 static ssize_t k_recvmsg(int fd, struct msghdr* m, int fl) { if (fd != A.fd || (void*)m != A.buf || fl != A.mflags) G.bad_args = 1; return k_result(0x7ffff000ul); }
 static ssize_t k_sendmsg(int fd, const struct msghdr* m, int fl) { if (fd != A.fd || (void*)m != A.buf || fl != A.mflags) G.bad_args = 1; return k_result(0x7ffff000ul); }
-static int k_close(int fd) { if (fd != A.fd) G.bad_args = 1; if (G.kclose_calls < 3) G.kclose_calls += 1; return (int)k_result(0); }
+static int k_close(int fd) { if (fd >= 0 && fd < TBL && KCLOSED[fd] < 3) KCLOSED[fd]++; if (fd != A.fd) G.bad_args = 1; if (G.kclose_calls < 3) G.kclose_calls += 1; return (int)k_result(0); }
 static int k_fcntl(int fd, int cmd, ...) {
-  if (fd != A.fd) return verif_bool() ? 0 : -1; /* setup_socket() on a freshly accepted descriptor: not the call under observation */
+  if (fd != A.fd) { /* setup of a freshly created / accepted descriptor: not the call under observation; remember what the kernel was told */
+    /* (the value is not read here: CBMC's va_arg model is fragile with a second va_list in one function; F_SETFL on a new descriptor is the O_NONBLOCK request) */
+    int ok0 = verif_bool();
+    if (ok0 && cmd == F_SETFL && fd >= 0 && fd < TBL) KNB[fd] = 1;
+    return ok0 ? 0 : -1; }
   va_list ap; va_start(ap, cmd); long v = va_arg(ap, long); va_end(ap);
   if (fd != A.fd || cmd != A.mflags || (cmd == F_SETFL ? v != (A.fcntl_val | O_NONBLOCK) : v != A.fcntl_val)) G.bad_args = 1; return (int)k_result(0x7fffffff); }
 static int k_ioctl(int fd, unsigned long req, ...) { va_list ap; va_start(ap, req); void* v = va_arg(ap, void*); va_end(ap);
@@ -196,3 +201,31 @@ void h_connect(void) { H_BEGIN int r = connect(A.fd, (const struct sockaddr*)A.p
   if (G.waits > 0 && !G.closed_while_waiting && r == 0) VASSERT(G.getsockopt_calls == 1 && G.so_error == 0, "C08.blocking(connect): success only when SO_ERROR reports none");
   if (G.waits > 0) VASSERT(G.wait_events == FIBER_POLL_OUT, "C08: connect waits for writability");
   VCANARY("connect can return"); }
+/* ---- descriptor-creating shims: socket, socketpair, pipe.  "A call on a descriptor in blocking mode suspends only the calling fiber" starts here:
+ * a new descriptor must be recorded as managed-blocking AND be non-blocking underneath (otherwise the first read blocks the whole kernel thread),
+ * or the call fails with the descriptor closed again. ---- */
+static int NEW0, NEW1, kcreate_ok;
+static void pick_new(void) { NEW0 = (int)verif_pick((unsigned)max_fd); NEW1 = (int)verif_pick((unsigned)max_fd); VASSUME(NEW0 != NEW1);
+  TABLE[NEW0].flags_ = 0; TABLE[NEW1].flags_ = 0; /* close() cleared the previous owner's flags: group close */ }
+static int k_socket(int d, int t, int p) { kcreate_ok = verif_bool(); if (!kcreate_ok) return -1; return NEW0; }
+static int k_socketpair(int d, int t, int p, int sv[2]) { kcreate_ok = verif_bool(); if (!kcreate_ok) return -1; sv[0] = NEW0; sv[1] = NEW1; return 0; }
+static int k_pipe(int pv[2]) { kcreate_ok = verif_bool(); if (!kcreate_ok) return -1; pv[0] = NEW0; pv[1] = NEW1; return 0; }
+static void init_create(void) {
+  init_any(); A.fd = -1; VASSUME(max_fd >= 2);
+  for (int i = 0; i < TBL; i++) { KNB[i] = 0; KCLOSED[i] = 0; }
+  pick_new(); fibershim_socket = k_socket; fibershim_socketpair = k_socketpair; fibershim_pipe = k_pipe;
+}
+#define MANAGED(fd) (BLOCKING_MODE(*(unsigned char*)&TABLE[fd].flags_) && KNB[fd])
+void h_socket(void) { init_create(); int r = socket(verif_int(), verif_int(), verif_int());
+  if (r >= 0) VASSERT(kcreate_ok && r == NEW0 && MANAGED(r) && KCLOSED[r] == 0, "C08(socket): a new socket is managed in blocking mode and non-blocking underneath");
+  else VASSERT(r == -1 && (!kcreate_ok || KCLOSED[NEW0] == 1), "C08(socket): a failed socket() returns -1 and leaves no descriptor open");
+  VCANARY("socket can return"); }
+static int SV[2];
+void h_socketpair(void) { init_create(); int r = socketpair(verif_int(), verif_int(), verif_int(), SV);
+  if (r == 0) VASSERT(kcreate_ok && SV[0] == NEW0 && SV[1] == NEW1 && MANAGED(NEW0) && MANAGED(NEW1) && KCLOSED[NEW0] == 0 && KCLOSED[NEW1] == 0, "C08(socketpair): both ends are managed in blocking mode and non-blocking underneath");
+  else VASSERT(r == -1 && (!kcreate_ok || (KCLOSED[NEW0] == 1 && KCLOSED[NEW1] == 1)), "C08(socketpair): a failed socketpair() returns -1 and leaves no descriptor open");
+  VCANARY("socketpair can return"); }
+void h_pipe(void) { init_create(); int r = pipe(SV);
+  if (r == 0) VASSERT(kcreate_ok && SV[0] == NEW0 && SV[1] == NEW1 && MANAGED(NEW0) && MANAGED(NEW1) && KCLOSED[NEW0] == 0 && KCLOSED[NEW1] == 0, "C08(pipe): both ends are managed in blocking mode and non-blocking underneath");
+  else VASSERT(r < 0 && (!kcreate_ok || (KCLOSED[NEW0] == 1 && KCLOSED[NEW1] == 1)), "C08(pipe): a failed pipe() returns an error and leaves no descriptor open");
+  VCANARY("pipe can return"); }
